@@ -210,6 +210,60 @@ func runC05(r *rt.Runner) {
 	dictStackLimit = probeDictStackLimit()
 	full, _ := c02Pool()
 	bm := newPairBitmap()
+	// the first line of the plaintext: the four random bytes in front of it are
+	// not part of the text, so what the scanner knows about its position (column,
+	// "a CR was the last byte") at the first plaintext byte must not depend on
+	// what they decrypt to. Observable: a structured comment on the first line
+	// is recorded exactly when the plaintext run records it. Every value of the
+	// fourth random byte (as plaintext), five ways of beginning the text, six
+	// gaps behind `eexec`, binary and hexadecimal.
+	for hi := 0; hi < 16; hi++ {
+		hi := hi
+		r.Case(fmt.Sprintf("first-line/%X", hi), func(c *rt.C) {
+			rng := c.Rand()
+			for lo := 0; lo < 16; lo++ {
+				b4 := byte(hi<<4 | lo)
+				for _, lead := range []string{"", "\n", "\r", "\r\n", " ", "\t\n"} {
+					plain := []byte(lead + "%%First: yes\n/x 1 def\n%%Second: two\n/y 2 def\n")
+					// the plaintext run
+					i2 := postscript.NewInterpreter()
+					i2.MaxOps = 10000
+					i2.DictStack = append(i2.DictStack, i2.SystemDict)
+					err2 := i2.Execute(bytes.NewReader(plain))
+					for _, gap := range []string{" ", "\n", "\t", "\r", "\r\n", " \n "} {
+						for _, binary := range []bool{true, false} {
+							var cipher []byte
+							for {
+								prefix := []byte{byte(rng.IntN(256)), byte(rng.IntN(256)), byte(rng.IntN(256)), b4}
+								cipher = ref.Encrypt(append(prefix, plain...), ref.EexecKey, nil)
+								if !binary || ref.LegalBinaryStart(cipher) {
+									break
+								}
+							}
+							var file bytes.Buffer
+							file.WriteString("%!\n/q 0 def\ncurrentfile eexec" + gap)
+							if binary {
+								file.Write(cipher)
+							} else {
+								fmt.Fprintf(&file, "%x", cipher)
+							}
+							i1 := postscript.NewInterpreter()
+							i1.MaxOps = 10000
+							err1 := i1.Execute(bytes.NewReader(file.Bytes()))
+							c.Eval()
+							c.Count("first-line sections")
+							if fmt.Sprint(err1) != fmt.Sprint(err2) || fmt.Sprint(i1.DSC) != fmt.Sprint(i2.DSC) {
+								c.Violation(fmt.Sprintf("first-line|%q", lead),
+									fmt.Sprintf("plaintext %q behind `eexec`+%q, %s, fourth random byte 0x%02x: the encrypted run records the structured comments %v (err %v), the plaintext run %v (err %v)",
+										plain, gap, map[bool]string{true: "binary", false: "hexadecimal"}[binary], b4, i1.DSC, err1, i2.DSC, err2), fmt.Sprintf("file: %q", file.Bytes()))
+							}
+						}
+					}
+				}
+			}
+			c.Nontrivial([]byte(fmt.Sprintf("first-line|%d", hi)), nil)
+		})
+	}
 	nCases := r.N(40000, 2000000)
 	for k := 0; k < nCases; k++ {
 		r.Case("section", func(c *rt.C) {
